@@ -320,15 +320,18 @@ def rule_logical(chk, prog, tier):
         for lv in (0, 2, 'n'):
             for rv in (0, 2, 'n'):
                 cases.append((op, lv, rv))
-    for lt in ('int', 'double'):
-        for (op, lv, rv) in cases:
-            def runner(it, op=op, lv=lv, rv=rv, lt=lt):
+    # negative zero is zero: a floating operand is tested by comparison with 0, never by its bit pattern (either operand)
+    fcases = [(op, lv, rv, lt, rt) for op in ('TLAND', 'TLOR') for (lv, rv, lt, rt) in ((-0.0, 2, 'double', 'int'), (-0.0, 0, 'double', 'int'), (2, -0.0, 'int', 'double'), (0, -0.0, 'int', 'double'), (-0.0, -0.0, 'double', 'double'),
+                                                                                     (0, 0.5, 'int', 'double'), (2, 0.0, 'int', 'double'), (-0.0, 'n', 'double', 'int'), (-0.0, 2, 'float', 'int'), (0, -0.0, 'int', 'float'))]
+    for lt, rt, (op, lv, rv) in [(lt, 'int', c) for lt in ('int', 'double') for c in cases] + [(c[3], c[4], c[:3]) for c in fcases]:
+        if True:
+            def runner(it, op=op, lv=lv, rv=rv, lt=lt, rt=rt):
                 w = World(prog, it=it, target='x86_64-sysv')
                 def mk(v, ty):
                     if v == 'n':
                         return w.temp(w.t(ty), 'x')
-                    return mkconst(w, w.t(ty), float(v) if ty == 'double' else v)
-                l = mk(lv, lt); rr = mk(rv, 'int')
+                    return mkconst(w, w.t(ty), float(v) if ty in ('double', 'float') else v)
+                l = mk(lv, lt); rr = mk(rv, rt)
                 e = w.mkexpr('EXPRBINARY', w.t('int'), None, op=ev(prog, op), u__binary__l=l, u__binary__r=rr)
                 res = it.call(fn, [e])
                 k = it.load(res.obj, ('kind',))
@@ -339,7 +342,7 @@ def rule_logical(chk, prog, tier):
             if len(runs) != 1 or runs[0].outcome != 'return':
                 raise AnalysisBroken('eval logical: %s' % [(x.outcome, x.detail) for x in runs])
             got = runs[0].value
-            key = 'logical:%s,%s:%s,%s' % (op, lt, lv, rv)
+            key = 'logical:%s,%s:%s,%s' % (op, lt if rt == 'int' else '%s/%s' % (lt, rt), lv, rv)
             # oracle
             if lv == 'n':
                 want = None    # left operand unknown: must stay non-constant
@@ -694,6 +697,7 @@ def run(chk, tier):
     chk.guard('C05.d', lambda: c05.rule_literals(chk, prog, tier))            # the type of an integer literal (by base, suffix, magnitude) decides how the expressions built from it fold
     chk.guard('C05.d2', lambda: c05.rule_literal_base(chk, prog, tier))       # ... and primaryexpr has to hand inttype the right base
     chk.guard('C10.h', lambda: c10.rule_staticassert(chk, prog, tier))        # static assertions are one of the folding contexts
+    chk.guard('C05.b', lambda: c05.rule_common(chk, prog, tier))               # the common real type of the operands decides whether a fold is signed or unsigned
     from props import c15
     chk.guard('C15.f', lambda: c15.rule_case_conversion(chk, prog, tier))     # case labels are another: the folded constant is converted to the promoted controlling type
     from props import c07
